@@ -377,6 +377,41 @@ def build() -> Check:
                              "(expected one per input, in input order)", t))
         ck.ob("R1.replay-item-per-input", fn_construct(f_replay), not badr and trs, (badr[0][0] + ": " + trace_sig(badr[0][1])[-300:]) if badr else "", cell=st)
     ck.floor("replay_paths", n_rp, 7)
+    # The first delivery reports the branch states *at decision time*; replay() reads the children's records, which can still advance after the
+    # decision (a branch that finishes while the parent's completion record is in flight passes the orphan guard and is recorded as finished).
+    # For "the same batch result is delivered when the call is replayed" one of two things is necessary: the executor fences its descendants
+    # before it takes the snapshot, or replay() bounds what it reads by something recorded with the parent (the decision-time statuses).
+    sc9 = prog.cls("state", "ExecutionState")
+
+    def reaches_marking(mname, seen=None):
+        seen = seen or set()
+        if mname in seen or mname not in sc9.methods:
+            return False
+        seen.add(mname)
+        if mname in ("create_checkpoint", "create_checkpoint_sync"):
+            return False  # marks only when it is handed the completion record itself - that is the record whose acceptance comes too late
+        from sa.common import self_method_calls as _smc
+        callees = {c_ for _, c_ in _smc(sc9.methods[mname].node)}
+        if "_mark_orphans" in callees:
+            return True
+        return any(reaches_marking(c_, seen) for c_ in callees)
+
+    ex_fn = cex.methods["execute"]
+    fenced = False
+    seen_wait = False
+    for n_ in ast.walk(ex_fn.node):
+        if isinstance(n_, ast.Call) and isinstance(n_.func, ast.Attribute):
+            if n_.func.attr == "wait" and "_completion_event" in ast.unparse(n_.func.value):
+                seen_wait = True
+            if isinstance(n_.func.value, ast.Name) and n_.func.value.id == "execution_state" and reaches_marking(n_.func.attr):
+                fenced = True
+    reads_parent = any(isinstance(n_, ast.Call) and isinstance(n_.func, ast.Attribute) and n_.func.attr == "get_checkpoint_result"
+                       and n_.args and "_parent_id" in ast.unparse(n_.args[0]) for n_ in ast.walk(f_replay.node))
+    ck.ob("R1.replay-bounded-by-decision-snapshot", fn_construct(f_replay), fenced or reads_parent,
+          "execute() takes its snapshot of the branch states without fencing the branches first, and replay() rebuilds the items from the children's records alone: a "
+          "branch that finishes after the decision but before the parent's completion record is accepted is STARTED in the first delivery and SUCCEEDED/FAILED in "
+          "every replay (ReplayChildren mode)")
+
     # mixed histories: every item carries what was recorded for *its own* child (nothing carries over from a neighbour)
     from sa.interp import SpecialObj
     import itertools as _it
